@@ -29,6 +29,6 @@ Extraction "model.ml" m_step m_init bcmp sha256 uvarint_enc uvarint_dec varint_e
   Diff.extract Diff.net Store.expected_store Store.expected_fast commit_ops_sha
   get_proof_sha Ics23.marshal_commitment_proof VersionFacts.in_contractb
   prune_forest_sha prune_forest_disks_sha readable_sha load_version_sha PruneAlgo.phys_of PruneAlgo.rekeyed
-  fstep_sha FastLife.finit Discover.discovered_available
+  fstep_sha FastLife.finit FastLife.enable_if_needed Discover.discovered_available
   commit_node_ops_sha Crash.recover Crash.image Store.rollback_ops Store.rebuild_ops Store.apply_ops
   DbImage.encode_image DbImage.decode_image.
